@@ -949,10 +949,25 @@ fn c10_driver() {
         if C10_CLEAR_FIRST {
             // another thread's clear() lands after the marker was queued: the cleaner meets it
             assert!(p.cache.clear().is_ok(), "clear() returns Ok");
+            assert!(p.process_clear(), "the clear signal is handled");
+        } else {
+            // the processor consumes the queue in order; the harness knows which kinds of item it
+            // queued, so only those arms of handle_item are explored
+            if C10_DO_INS {
+                assert!(p.process_one_mask(M_NEW | M_UPDATE), "the queued insert is processed");
+            }
+            if C10_DO_REM {
+                assert!(p.process_one_mask(M_DELETE), "the queued Delete is processed");
+            }
+            assert!(p.process_one_mask(M_WAIT), "the Wait marker is processed");
         }
-        p.drain_mask(M_NEW | M_DELETE | M_WAIT);
     }
 }
+
+#[cfg(kani)]
+static mut C10_DO_INS: bool = false;
+#[cfg(kani)]
+static mut C10_DO_REM: bool = false;
 
 #[cfg(kani)]
 fn c10_wait(clear_race: bool) {
@@ -977,6 +992,8 @@ fn c10_wait(clear_race: bool) {
     unsafe {
         C10_P = &mut p as *mut _;
         C10_CLEAR_FIRST = clear_race;
+        C10_DO_INS = do_ins;
+        C10_DO_REM = do_rem;
         stubs::WG_DRIVER = Some(c10_driver);
         // there is room (assumed above): the policy admits without victims
         crate::policy::verif_harness::psync::CONTRACT_TRIVIAL = true;
@@ -1038,6 +1055,8 @@ fn c10_inflight() {
         C10_INFLIGHT = taken.ok();
         C10_P = &mut p as *mut _;
         C10_CLEAR_FIRST = false;
+        C10_DO_INS = false;
+        C10_DO_REM = false;
         stubs::WG_DRIVER = Some(c10_driver);
         crate::policy::verif_harness::psync::CONTRACT_TRIVIAL = true;
         crate::policy::verif_harness::psync::CONTRACT_ADMIT = true;
